@@ -82,6 +82,17 @@ func memMap(form string, v int, gperf bool) string {
 		b.WriteString("00000008-00001000 r-xp 00000000 fd:01 1234 /bin/exe\n")
 		b.WriteString("00003000-00004000 rw-p 00002000 fd:01 1234 /bin/exe\n")
 		b.WriteString("00001000-00002000 r-xp 00000000 fd:01 99   /lib/libc.so.6\n")
+	case "split3":
+		// the executable as three adjacent entries with consecutive file offsets: one mapping again after parsing;
+		// the addresses 16, 17 and 32 of the catalogue fall into the first, second and third piece
+		b.WriteString("--- Memory map: ---\n")
+		b.WriteString("00000008-00000011 r-xp 00000000 fd:01 1234 /bin/exe\n")
+		b.WriteString("00000011-00000020 r-xp 00000009 fd:01 1234 /bin/exe\n")
+		b.WriteString("00000020-00001000 r-xp 00000018 fd:01 1234 /bin/exe\n")
+		b.WriteString("00003000-00004000 rw-p 00002000 fd:01 1234 /bin/exe\n")
+		b.WriteString("00001000-00001001 r-xp 00000000 fd:01 99   /lib/libc.so.6\n")
+		b.WriteString("00001001-00001800 r-xp 00000001 fd:01 99   /lib/libc.so.6\n")
+		b.WriteString("00001800-00002000 r-xp 00000800 fd:01 99   /lib/libc.so.6\n")
 	case "brief":
 		b.WriteString("--- Memory map: ---\n")
 		if v%2 == 0 {
